@@ -6,7 +6,7 @@ symmetries and triangular-vs-full summation.  Nothing is executed and no concret
 """
 import sympy as sp
 
-from ..vals import Vals, callee_is, norm_path
+from ..vals import Vals, callee_is, norm_path, bool_edges
 from ..roles import RoleLost
 from .. import pat
 from ..kern.expr import Expr, fresh, equal_modulo_order, sym
@@ -313,6 +313,20 @@ def run_c08(ctx):
         ctx.ob("C08-b", "Metadata.l_matrix is that matrix", scalar_of(lm.at("a", "b"), "l_matrix") == leaf("Lmat", "a", "b"), "sampling::sample",
                "metadata-l-matrix")
     guarded_clause(ctx, "C08-b", "sampling::sample", "u-wiring", b)
+    ctx.rule("C08-c", "the determinant returned as u is (Π_i q[i,i])² of the factor defined by the Cholesky–Banachiewicz recurrence on that matrix")
+    cholesky_clause(ctx, "C08-c")
+    mw = matrix_world(ctx)
+    if mw.ok:
+        def detc():
+            qt = scalar_of(mw.result.fields["q_transposed"].at("a", "b"), "q_transposed")
+            names = single_matrix_leaf(qt)
+            if len(names) != 1:
+                raise Undecided("factor matrix not identified")
+            Q = sorted(names)[0]
+            i = fresh("i")
+            compare(ctx, "C08-c", "determinant == (Π_i q[i,i])²", scalar_of(mw.result.fields["determinant"], "determinant"),
+                    Expr.atom(("prod", i, "n", leaf(Q, i, i))).powf(2), mw.dec.path, "determinant-wiring", {}, ())
+        guarded_clause(ctx, "C08-c", mw.dec.path, "determinant", detc)
 
 
 # ---------------------------------------------------------------------------------------------------
@@ -588,6 +602,196 @@ def run_c15(ctx):
         ctx.ob("C15-d", "IndexMut offset is r·dim + c (sibling agreement)", offs.get("index_mut") == want, "matrix::SquareMatrix::index_mut", "index-mut-offset",
                detail="offset %s, expected %s" % (offs.get("index_mut"), want))
     guarded_clause(ctx, "C15-d", "matrix::SquareMatrix", "index-offset", d)
+
+
+def top_local(I, name):
+    """Final value of a local of the top-level function, by name."""
+    for env in I.block_envs:
+        for vid, val in env.vars.items():
+            if I.var_names.get(vid) == name:
+                return val
+    return None
+
+
+def cholesky_clause(ctx, RID):
+    w = matrix_world(ctx)
+    if not w.ok:
+        return ctx.ob(RID, "decompose_for_tropical summarised", False, "matrix::SquareMatrix::decompose_for_tropical", "kernel-undecided", detail=w.error)
+    fn = w.dec.path
+    I = w.I
+    ctx.fn(fn)
+
+    def chol():
+        names = single_matrix_leaf(scalar_of(w.result.fields["q_transposed"].at("a", "b"), "q_transposed"))
+        if len(names) != 1:
+            raise Undecided("factor matrix not identified")
+        Q = sorted(names)[0]
+        recs = [r for r in I.recurrences if Q in r.get("names", []) and "equations" in r]
+        if len(recs) != 1:
+            raise Undecided("the factor `%s` is not defined by exactly one recurrence loop (%d; %s)" % (Q, len(recs), [r.get("pass2_error") for r in I.recurrences]))
+        rec = recs[0]
+        i, cls, og = rec["outer"]
+        eqs = [e for e in rec["equations"] if e[0] == Q]
+        diag = [e for e in eqs if e[1][0][1] == (i, i)]
+        off = [e for e in eqs if e[1][0][1] != (i, i)]
+        ctx.ob(RID, "one diagonal and one sub-diagonal write per outer iteration", len(diag) == 1 and len(off) == 1 and all(e[2] == "=" for e in eqs), fn,
+               "cholesky-write-pattern", detail="writes %s" % [(e[1], e[2], e[4]) for e in eqs])
+        if len(diag) != 1 or len(off) != 1:
+            return
+        k = fresh("k")
+        Di = leaf("A", i, i) - ssum(leaf(Q, i, k) * leaf(Q, i, k), k, cls, [("<", k, i)])
+        want_d = Di.powf(sp.Rational(1, 2))
+        compare(ctx, RID, "q[i,i] == (A[i,i] − Σ_{k<i} q[i,k]²)^½", scalar_of(diag[0][3], "diagonal write"), want_d, fn, "cholesky-diagonal", {i: cls}, ("A",))
+        (jr, jc) = off[0][1][0][1]
+        j_ok = jc == i and (("<", i, jr) in off[0][4]) and any(b[0] == jr for b in off[0][5])
+        ctx.ob(RID, "the sub-diagonal write goes to (j,i) for every j > i", j_ok, fn, "cholesky-offdiagonal-index", detail="index (%s,%s) guards %s" % (jr, jc, off[0][4]))
+        k2 = fresh("k")
+        num = leaf("A", i, jr) - ssum(leaf(Q, i, k2) * leaf(Q, jr, k2), k2, cls, [("<", k2, i)])
+        want_o = num * Di.powf(sp.Rational(-1, 2))
+        compare(ctx, RID, "q[j,i] == (A[i,j] − Σ_{k<i} q[i,k]·q[j,k]) / q[i,i]", scalar_of(off[0][3], "sub-diagonal write"), want_o, fn, "cholesky-offdiagonal",
+                {i: cls, jr: cls}, ("A",))
+        # dependences: every read of the factor is in a column strictly left of the current one
+        bad = [r for r in rec["reads"] if r[0] == Q and ("<", r[1][1], i) not in r[2]]
+        ctx.ob(RID, "every read of the factor (%d reads) is in a column k < i, written in an earlier iteration" % len(rec["reads"]), not bad and bool(rec["reads"]), fn,
+               "cholesky-read-before-write", detail="reads not provably earlier: %s" % bad[:3])
+
+    guarded_clause(ctx, RID, fn, "cholesky", chol)
+
+
+def run_c15e(ctx):
+    ctx.rule("C15-e", "the factor loop is the Cholesky–Banachiewicz recurrence q[i,i] = (A[i,i] − Σ_{k<i} q[i,k]²)^½, q[j,i] = (A[i,j] − Σ_{k<i} q[i,k]·q[j,k])/q[i,i] (j>i), "
+                      "every read refers to a column written in an earlier iteration; N = D⁻¹Q − I strictly lower; Q⁻¹ = (I + Σ_{t≥1} (−N)^t)·D⁻¹ with the powers "
+                      "N¹..N^(dim−1) built by repeated multiplication and alternating signs")
+    from ..vals import Vals
+    from .. import cfg
+    w = matrix_world(ctx)
+    if not w.ok:
+        return ctx.ob("C15-e", "decompose_for_tropical summarised", False, "matrix::SquareMatrix::decompose_for_tropical", "kernel-undecided", detail=w.error)
+    fn = w.dec.path
+    I = w.I
+
+    cholesky_clause(ctx, "C15-e")
+
+    def nmat():
+        names = single_matrix_leaf(scalar_of(w.result.fields["q_transposed"].at("a", "b"), "q_transposed"))
+        Q = sorted(names)[0]
+        # inverse of the triangular factor: QTI[a,b] = inverse_q[b,a] = (S[b,a] + [a=b]) / q[a,a] for one matrix S (the series sum)
+        qti = scalar_of(w.result.fields["q_transposed_inverse"].at("a", "b"), "qti")
+        snames = single_matrix_leaf(qti) - {Q}
+        if len(snames) != 1:
+            raise Undecided("series-sum matrix not identified in q_transposed_inverse (%s)" % sorted(snames))
+        Sn = sorted(snames)[0]
+        want = (leaf(Sn, "b", "a") + Expr.const(1).guarded([("=", "a", "b")])) * leaf(Q, "a", "a").inv()
+        compare(ctx, "C15-e", "Q⁻¹[r,c] == (S[r,c] + [r=c])/q[c,c]  (S = `%s`, the series sum)" % Sn, qti, want, fn, "inverse-assembly", {"a": "n", "b": "n"}, ())
+        # N matrix: the first element pushed to the power list
+        nm = None
+        for env in I.block_envs:
+            for vid, val in env.vars.items():
+                if isinstance(val, Arr) and len(val.classes) == 2 and val.rules and not isinstance(val, models.ListV):
+                    nmn = I.var_names.get(vid)
+                    try:
+                        e_ = scalar_of(val.at("r", "c"), "entry")
+                    except Undecided:
+                        continue
+                    want_n = (leaf(Q, "r", "c") * leaf(Q, "r", "r").inv()).guarded([("<", "c", "r")])
+                    ok, _why = equal_modulo_order(e_, want_n, {"r": "n", "c": "n"}, set())
+                    if not ok:
+                        # rows start at 1 in the code (0 <= c < r makes r >= 1 anyway)
+                        ok, _why = equal_modulo_order(e_, want_n.guarded([("<=", 1, "r")]), {"r": "n", "c": "n"}, set())
+                    if ok:
+                        nm = nmn
+        ctx.ob("C15-e", "a local holds N[r,c] = [c<r]·q[r,c]/q[r,r] (strictly lower part of D⁻¹Q) — `%s`" % nm, nm is not None, fn, "n-matrix")
+        w.n_name = nm
+        w.s_name = Sn
+    guarded_clause(ctx, "C15-e", fn, "n-matrix", nmat)
+
+    # series shape on MIR
+    body = w.dec
+    v = Vals(body)
+    f = ctx.facts
+    from . import common
+    pushes = [(bi, t) for bi, t in body.calls() if t.get("callee", {}).get("name") == "push" and "SquareMatrix" in (t["callee"].get("impl_self") or "") + str(t["callee"].get("gargs"))]
+    lps = cfg.loops(body)
+    in_loop = [(bi, t) for bi, t in pushes if any(bi in bl for _h, bl in lps)]
+    out_loop = [(bi, t) for bi, t in pushes if (bi, t) not in in_loop]
+    ok_shape = len(in_loop) == 1 and len(out_loop) == 1
+    det = "%d pushes of matrices inside loops, %d outside" % (len(in_loop), len(out_loop))
+    if ok_shape:
+        bi, t = in_loop[0]
+        pr = v.root(t["args"][1])
+        mt = v.call_term(pr)
+        mul_ok = mt is not None and callee_is(mt, trait="Mul", name="mul")
+        la = fa = None
+        if mul_ok:
+            def through_unwrap(r):
+                tt = v.call_term(r)
+                for _ in range(4):
+                    if tt is not None and tt["callee"].get("name") in ("unwrap_or_else", "unwrap", "expect"):
+                        r2 = v.root(tt["args"][0])
+                        tt = v.call_term(r2)
+                        continue
+                    break
+                return tt
+            l0 = through_unwrap(v.root(mt["args"][0]))
+            l1 = through_unwrap(v.root(mt["args"][1]))
+            la = l0["callee"].get("name") if l0 else None
+            fa = l1["callee"].get("name") if l1 else None
+        ok_shape = mul_ok and {la, fa} == {"last", "first"}
+        det += "; pushed value = Mul(%s(), %s())" % (la, fa)
+        # loop range: 1 .. dim-1
+        heads = [h for h in common.loop_next_sites(body, v) if any(bi in bl and h[0] in bl for _h, bl in lps)]
+        rng_ok = False
+        for h in heads:
+            itr = v.root(h[4]["args"][0])
+            for d_ in v.defs.get(itr.base[1], []) if itr.kind == "local" else []:
+                if d_[0] == "stmt" and d_[3]["k"] == "use":
+                    t2 = v.call_term(v.root(d_[3]["op"]))
+                    if t2 is not None and callee_is(t2, trait="IntoIterator", name="into_iter"):
+                        r3 = v.root(t2["args"][0])
+                        rv = v.rvalue_of(r3) if r3.kind == "local" else None
+                        if rv is not None and rv["k"] == "aggregate" and "end" in rv.get("fields", []):
+                            st_, en_ = rv["ops"][rv["fields"].index("start")], rv["ops"][rv["fields"].index("end")]
+                            er = v.root(en_)
+                            # end = dim - 1 (checked subtraction of the matrix dimension by one)
+                            dv = None
+                            if er.kind == "local":
+                                ev_ = v.rvalue_of(Root_strip(er)) if False else None
+                            src = er
+                            if src.kind == "local" and src.path[-1:] == ("0",):
+                                dd = v.single_def(src.base[1])
+                                if dd and dd[0] == "stmt" and dd[3]["k"] == "binop" and dd[3]["op"] in ("SubWithOverflow", "Sub"):
+                                    a_, b_ = dd[3]["a"], dd[3]["b"]
+                                    ra = v.root(a_)
+                                    dv = (ra.path[-1:] == ("dim",) and b_["k"] == "const" and b_.get("int") == "1")
+                            rng_ok = bool(dv) and st_["k"] == "const" and st_.get("int") == "1"
+        ok_shape = ok_shape and rng_ok
+        det += "; loop range 1..dim-1: %s" % rng_ok
+    ctx.ob("C15-e", "powers of N: list starts with N, then `last·first` is pushed for t in 1..dim−1 (N¹..N^(dim−1))", ok_shape, fn, "nilpotent-powers", detail=det)
+    # alternating fold: closure with i % 2 == 0 -> acc - mat, else acc + mat
+    alt_ok = False
+    det2 = "no fold closure with a parity test found"
+    for cb in f.closures_of(body.path):
+        vc = Vals(cb)
+        subs = [(bi, t) for bi, t in cb.calls() if callee_is(t, trait="Sub", name="sub")]
+        adds = [(bi, t) for bi, t in cb.calls() if callee_is(t, trait="Add", name="add")]
+        if len(subs) == 1 and len(adds) == 1:
+            sw = [bi for bi, b in enumerate(cb.blocks) if b["term"]["k"] == "switch" and not b["cleanup"]]
+            for sb in sw:
+                c = vc.classify_bool(cb.blocks[sb]["term"]["discr"])
+                if c and c[0] == "binop" and c[1]["op"] == "Eq":
+                    lhs = vc.root(c[1]["a"])
+                    rv = vc.rvalue_of(lhs) if lhs.kind == "local" else None
+                    zero = c[1]["b"]["k"] == "const" and c[1]["b"].get("int") == "0"
+                    is_mod2 = rv is not None and rv["k"] == "binop" and rv["op"] == "Rem" and rv["b"]["k"] == "const" and rv["b"].get("int") == "2"
+                    te, fe = bool_edges(cb, sb)
+                    sub_on_even = subs[0][0] in cb.reachable_from(te, avoid=frozenset([fe])) and adds[0][0] in cb.reachable_from(fe, avoid=frozenset([te]))
+                    alt_ok = bool(zero and is_mod2 and sub_on_even)
+                    det2 = "parity test %s, Sub on even index %s" % (is_mod2 and zero, sub_on_even)
+    ctx.ob("C15-e", "series sum: fold over the powers with −N^(t+1) for even t and + for odd t, starting from zero", alt_ok, fn, "alternating-series", detail=det2)
+
+
+def Root_strip(r):
+    return r
 
 
 def matrix_wiring_clause(ctx, rule, what):
